@@ -444,7 +444,13 @@ func buildJoin(sc *JoinSc) (simrt.Config, func()) {
 				released = make(chan struct{}, sc.RelCap)
 			}
 
-			dsc, err := join1.New(join1.Opts[int]{Ctx: ctx, Input: in, JoinSize: uint(sc.JoinSize), Released: released, Timeout: time.Duration(sc.Timeout), TimeoutInaccuracy: sc.Inacc})
+			// without a cancel in the script the caller may just as well pass no context
+			var optCtx context.Context = ctx
+			if (sc.Stop == nil || !sc.Stop.Cancel) && sc.JoinSize%2 == 0 {
+				optCtx = nil
+			}
+
+			dsc, err := join1.New(join1.Opts[int]{Ctx: optCtx, Input: in, JoinSize: uint(sc.JoinSize), Released: released, Timeout: time.Duration(sc.Timeout), TimeoutInaccuracy: sc.Inacc})
 			if err != nil {
 				simrt.Note("new-error", 0, 0)
 				cancel()
